@@ -237,7 +237,14 @@ class Gateway(Engine):
         """Return the current schema & state (may include expired packets)."""
 
         self._pause()
+        try:  # the engine must be resumed, even if building the state raises
+            return self._get_state(include_expired=include_expired)
+        finally:
+            self._resume()
 
+    def _get_state(
+        self, include_expired: bool = False
+    ) -> tuple[dict[str, Any], dict[str, str]]:
         def wanted_msg(msg: Message, include_expired: bool = False) -> bool:
             if msg.code == Code._313F:
                 return msg.verb in (I_, RP)  # usu. expired, useful 4 back-back restarts
@@ -271,8 +278,6 @@ class Gateway(Engine):
                 for msg in msgs
                 if wanted_msg(msg, include_expired=include_expired)
             }
-
-        self._resume()
 
         return self.schema, dict(sorted(pkts.items()))
 
@@ -316,23 +321,25 @@ class Gateway(Engine):
         # The actual HGI address will be discovered when the actual transport was/is
         # started up (usually before now)
 
-        tmp_protocol = protocol_factory(
-            self._msg_handler,
-            disable_sending=True,
-            enforce_include_list=enforce_include_list,
-            exclude_list=self._exclude,
-            include_list=self._include,
-        )
+        try:  # the engine must be resumed, even if the restore fails
+            tmp_protocol = protocol_factory(
+                self._msg_handler,
+                disable_sending=True,
+                enforce_include_list=enforce_include_list,
+                exclude_list=self._exclude,
+                include_list=self._include,
+            )
 
-        tmp_transport = await transport_factory(
-            tmp_protocol,
-            packet_dict=packets,
-        )
+            tmp_transport = await transport_factory(
+                tmp_protocol,
+                packet_dict=packets,
+            )
 
-        await tmp_transport.get_extra_info(SZ_READER_TASK)
+            await tmp_transport.get_extra_info(SZ_READER_TASK)
 
-        _LOGGER.warning("GATEWAY: Restored, resuming")
-        self._resume()
+        finally:
+            _LOGGER.warning("GATEWAY: Restored, resuming")
+            self._resume()
 
     def _add_device(self, dev: Device) -> None:  # TODO: also: _add_system()
         """Add a device to the gateway (called by devices during instantiation)."""
